@@ -1,4 +1,5 @@
 import EaModel.Lemmas.Least
+import EaModel.Lemmas.Regular
 import EaModel.Generated
 /-!
 # C06 — time-of-day triggers honour the wall clock and the DST policy
@@ -12,10 +13,11 @@ namespace Ea.C06
 
 /-- a wall clock time that exists exactly once on the date: that instant, whatever the policy -/
 theorem replace_unique (r : TimeRep) (z : Zone) (hs : z.Sorted) (day u : Int)
-    (h : z.resolve (day * NS_PER_DAY + r.tod) = .unique u)
-    (hne : sols z.init none z.trans (day * NS_PER_DAY + r.tod) ≠ []) :
-    r.replace z day = .ok [u] ∧ z.toLocal u = day * NS_PER_DAY + r.tod := by
-  refine ⟨by simp [TimeRep.replace, h], (z.resolve_unique hs _ u h hne).1⟩
+    (h : z.resolve (day * NS_PER_DAY + r.tod) = .unique u) :
+    r.replace z day = .ok [u] ∧ z.toLocal u = day * NS_PER_DAY + r.tod ∧
+      ∀ v, z.toLocal v = day * NS_PER_DAY + r.tod → v = u := by
+  obtain ⟨h1, h2⟩ := z.resolve_unique' hs _ u h
+  exact ⟨by simp [TimeRep.replace, h], h1, h2⟩
 
 /-- skipped time, policy **skip**: no run for that date -/
 theorem replace_gap_skip (r : TimeRep) (z : Zone) (day e l : Int) (hp : r.skipped = .skip)
@@ -104,6 +106,17 @@ theorem time_once_per_day (env : Env) (r : TimeRep) (dt x : Int) (hreg : TimeReg
   intro d c hc hdt
   exact h3 c ⟨⟨d, hc⟩, by simp [Env.allows, allowOpt]⟩ hdt
 
+/-- the same without a hypothesis about dates, for every sorted table whose offsets span less than `24 h − 121 min` -/
+theorem time_once_per_day_narrow (env : Env) (hz : env.zone.narrowB = true) (r : TimeRep) (h0 : 0 ≤ r.tod)
+    (h1 : r.tod < NS_PER_DAY) (dt x : Int) (h : getNext env (.time r none) dt = .ok x) :
+    (∃ d, x ∈ candsOf env.zone r d) ∧ dt < x ∧ ∀ d c, c ∈ candsOf env.zone r d → dt < c → x ≤ c :=
+  time_once_per_day env r dt x (timeRegular_of_narrowB env.zone hz r h0 h1) h
+
+/-- in such a zone the runs of successive local dates are strictly ordered: a date never fires before an earlier one -/
+theorem days_in_order_narrow (z : Zone) (hz : z.narrowB = true) (r : TimeRep) (h0 : 0 ≤ r.tod) (h1 : r.tod < NS_PER_DAY)
+    (d d' c c' : Int) (hd : d < d') (hc : c ∈ candsOf z r d) (hc' : c' ∈ candsOf z r d') : c < c' :=
+  (timeRegular_of_narrowB z hz r h0 h1).mono d d' c c' hd hc hc'
+
 /-- the number of minutes `find_time_after_dst_switch` tries in the code is the one the model uses -/
 theorem after_tries_matches : Ea.Gen.afterTries = Ea.AFTER_TRIES := by decide
 
@@ -115,5 +128,7 @@ def zTest : Zone := { init := 1 * NS_PER_HOUR, trans := [(1000 * NS_PER_HOUR, 2 
 -- local 5001:30 is repeated (fold 5001:00–5002:00); day 208 = 4992 h; tod = 09:30
 #guard okVal (({ tod := 9 * NS_PER_HOUR + 30 * NS_PER_MIN, repeated := .twice } : TimeRep).replace zTest 208)
   == some [4999 * NS_PER_HOUR + 30 * NS_PER_MIN, 5000 * NS_PER_HOUR + 30 * NS_PER_MIN]
+
+example : zTest.narrowB = true := by decide
 
 end Ea.C06
